@@ -74,6 +74,9 @@ def grammar_judge(chk, lang, verdict, fails, why, where='', counter=''):
 #  the plain assignment `Name = List[T]` and T is declared as a TypeVar): no entry; a 'py-grammar' complaint (assignment to a
 #  Subscript) or an import failure at such a statement ('py-import-at-generic-alias') is a plain violation again; the witness stays
 #  in WITNESSES with label None and must pass every judgement, the import of the module included)
+# (C10-swift-key-keyword - a tag / content key that is a Swift keyword printed bare as a ContainerCodingKeys case, `case case, default` -
+#  was repaired in /repo (fix 29: both keys go through swift_keyword_aware_rename): no entry; 'sw-grammar' / 'keyword' on such an enum is
+#  a plain violation; the witness is in WITNESSES with label None and decorate() draws keyword keys)
 PREDICTS = {
     'C10-scala-default': {'scala-default'},
     'C10-swift-label': {'swift-label', 'sw-grammar'},
@@ -112,6 +115,10 @@ SAFE_DOCS = ['has { brace ( paren [ bracket', 'closes } ) ] nothing', "uses 'sin
              'unicode \u00e9\u4e2d ok', "it's <b>html</b> & more"]
 
 
+# (tag, content) pairs drawn from SWIFT_KEYWORDS (core/src/language/swift.rs:24)
+KEYWORD_KEYS = [('case', 'default'), ('class', 'in'), ('let', 'var'), ('type', 'default'), ('is', 'content'), ('self', 'struct'), ('func', 'import')]
+
+
 def decorate(rng, prog):
     """plant decorators, redaction, read-only markers and balanced type overrides; make some doc lines nasty but safe"""
     for it in prog.items:
@@ -121,6 +128,10 @@ def decorate(rng, prog):
     for it in prog.items:
         if not it.annotated:
             continue
+        if it.tag is not None and rng.random() < 0.25:
+            # tag / content keys that are keywords of Swift (fix 29 of /repo: Swift prints them as enum cases and member accesses, in back
+            # ticks; the other languages put the key in a string literal / annotation argument)
+            it.tag, it.content = rng.choice(KEYWORD_KEYS)
         c = rng.random()
         if c < 0.12:
             it.extra_attrs.append('#[typeshare(swift = "Equatable, Hashable")]')
@@ -390,10 +401,14 @@ def go_string_escapes(text):
             i += 1
     return bad
 
+KEYDECLS = {}      # (lang, text) -> the ContainerCodingKeys pseudo-declarations of a Swift text (see observe)
+
+
 def observe(lang, text):
     """declaring positions + template conformance from the REAL text"""
     o = extract.extract(lang, text)
     decls, labels, fails, why = [], [], [], []
+    keydecls = KEYDECLS[(lang, text)] = []
     for d in o['definitions']:
         # every declared name must be an identifier (TypeScript: a quoted property name and the wire strings of an
         # algebraic enum's alternatives are not identifier positions)
@@ -408,6 +423,10 @@ def observe(lang, text):
         if d['kind'] == 'helper':
             continue
         decls.append((d['name'], bool(d['escaped']), [(m['name'], bool(m['escaped'])) for m in d['members']]))
+        if lang == 'swift' and d.get('container_keys'):
+            # the two cases of ContainerCodingKeys declare the tag / content key: judged by the same extracted predicate, as the
+            # members of the nested enum (kept apart from `decls`, which is compared with the model's Decl observation)
+            keydecls.append(('ContainerCodingKeys', False, [(c['name'], bool(c['escaped'])) for c in d['container_keys']]))
         for p in d.get('init_params') or []:
             labels.append(p[0])
         if lang == 'scala':
@@ -440,7 +459,8 @@ def observe(lang, text):
     return decls, labels, sorted(set(fails)), why
 
 
-def kw_request(lang, decls, labels):
+def kw_request(lang, decls, labels, text=None):
+    decls = list(decls) + (KEYDECLS.get((lang, text)) or [])
     ds = Lst(decls, lambda d: f'({S(d[0])} {B(d[1])} {Lst(d[2], lambda m: f"({S(m[0])} {B(m[1])})")})')
     return f'(c10_kw {lang} {ds} {Lst(labels, S)})'
 
@@ -460,7 +480,7 @@ def judge(chk, cases, tag):
         lexq.append(f'(c10_lex {lang} {S(text)})')
         clsq.append(f'(c10_cls {lang} {S(cfg.get("package", ""))} {back.items_sx(r["ir"])})')
         obs[k] = observe(lang, text)
-        kwq.append(kw_request(lang, obs[k][0], obs[k][1]))
+        kwq.append(kw_request(lang, obs[k][0], obs[k][1], text))
         if lang == 'go':       # Go's own classifier: the finding class of the Go declaration grammar, on the IR the REAL parser produced
             gocq.append((k, f'(c10_go_cls {back.items_sx(r["ir"])})'))
     cfgkeys = sorted(set((cases[k][0], json.dumps(cases[k][1], sort_keys=True)) for k in idx))
@@ -507,7 +527,8 @@ def judge(chk, cases, tag):
         grammar_judge(chk, lang, gra[k], fails, why)
         if vf.sx_get(kwa[j], 'kw') != 'true':
             fails.append('keyword')
-            why.append('a declared name that is a keyword of the language is not escaped')
+            why.append('a declared name that is a keyword of the language is not escaped' +
+                       ''.join(f' (ContainerCodingKeys case {m[0]})' for kd in KEYDECLS.get((lang, text)) or [] for m in kd[2] if not m[1]))
         if vf.sx_get(kwa[j], 'labels') != 'true':
             fails.append('swift-label')
             why.append('init label among inout/var/let: ' + ' '.join(l for l in labels if l in ('inout', 'var', 'let')))
@@ -691,6 +712,8 @@ WITNESSES = [
     ('python', {}, '#[typeshare]\npub type A<T> = Vec<T>;\n', None),
     ('python', {}, '#[typeshare]\npub type A<T> = Vec<T>;\n#[typeshare]\npub type B<K> = HashMap<String, Vec<K>>;\n#[typeshare]\npub struct S<T> { pub a: A<T>, pub b: B<u8> }\n'
                    '#[typeshare]\npub type C = A<u8>;\n', None),
+    # fix 29 of /repo: tag / content keys that are Swift keywords are back-ticked (``case `case`, `default` ``); before: `case case, default`
+    ('swift', {}, '#[typeshare]\n#[serde(tag = "case", content = "default")]\npub enum E { A(u8), B }\n', None),
     ('kotlin', {'package': 'com.x'}, '#[typeshare]\npub struct S { #[serde(rename = "1st")] pub first: u8 }\n', 'C10-digit-name'),
     ('typescript', {}, '#[typeshare]\npub struct S { #[serde(rename = "1st")] pub first: u8, #[serde(rename = "2-fa")] pub two: u8 }\n', 'C10-digit-name'),
     ('go', {'package': 'p'}, '#[typeshare]\npub struct S { pub _1x: u8 }\n', 'C10-digit-name'),
@@ -751,7 +774,7 @@ def run(chk):
     cfgs = configs(vf.core_version())
     drift = []
     # 1. one witness per finding class (and the witnesses of the repaired classes, which must pass), against the real code
-    wcases = [(l, c, s, {'witness': k or ('fixed:C10-python-generic-alias' if l == 'python' else 'fixed:C10-scala-package-brace')}) for l, c, s, k in WITNESSES]
+    wcases = [(l, c, s, {'witness': k or {'python': 'fixed:C10-python-generic-alias', 'swift': 'fixed:C10-swift-key-keyword'}.get(l, 'fixed:C10-scala-package-brace')}) for l, c, s, k in WITNESSES]
     good0 = chk.counters.get('good', 0)
     drift += judge(chk, wcases, 'witness')
     fixed_w = sum(1 for w in WITNESSES if w[3] is None)
@@ -759,7 +782,7 @@ def run(chk):
     if chk.counters['fixed_witnesses_passing'] != fixed_w and not chk.violations:
         # judge() reports a failing / classified witness itself; this catches the one it would skip (no output, outside dom)
         chk.violation('witness-fixed', {'expected': fixed_w, 'passing': chk.counters['fixed_witnesses_passing']},
-                      'a witness of a repaired class (C10-scala-package-brace, C10-python-generic-alias) is no longer generated, inside dom_C10, in no class and well-formed', no_input=True)
+                      'a witness of a repaired class (C10-scala-package-brace, C10-python-generic-alias, C10-swift-key-keyword) is no longer generated, inside dom_C10, in no class and well-formed', no_input=True)
     # 1b. the class that only the IR can reach (the parser rejects tag/content on an enum without data variants)
     empty = {'kind': 'enum', 'algebraic': True, 'tag': 't', 'content': 'c', 'id': ir.mk_id('E'), 'generics': [], 'comments': [], 'variants': [],
              'decorators': [], 'is_recursive': False, 'is_redacted': False}
@@ -833,7 +856,7 @@ def replay(chk, path):
         lex = vf.model([f'(c10_lex {d["lang"]} {S(text)})'])[0]
         cls = vf.model([f'(c10_cls {d["lang"]} {S(d["cfg"].get("package", ""))} {back.items_sx(r["ir"])})'])[0]
         decls, labels, fails, why = observe(d['lang'], text)
-        kw = vf.model([kw_request(d['lang'], decls, labels)])[0]
+        kw = vf.model([kw_request(d['lang'], decls, labels, text)])[0]
         print('lexer verdict  :', vf.dump_sx(lex))
         print('classification :', vf.dump_sx(cls))
         print('keywords       :', vf.dump_sx(kw))
